@@ -74,6 +74,45 @@ theorem protocol_shape (services : List Service) (m : List Res) (is : List Inner
     simp only [lastPoll, terminal, St.new]
     cases hany : m.any Res.isItem <;> simp [outs]
 
+/-- The closing poll of a complete run. -/
+def closing (services : List Service) (m : List Res) : Poll :=
+  if services = [] then .ready (some .noService)
+  else if m.any Res.isItem then .ready none
+  else .ready (some (.noResults (errsOf m)))
+
+/-- `protocol_shape` with the closing poll named: it is never `Pending`. -/
+theorem protocol_shape_closing (services : List Service) (m : List Res) (is : List Inner)
+    (h : FairRun services m is) :
+    ∃ pre post, (runPolls (resolve services).1 is).2 = pre ++ closing services m :: post
+      ∧ outs pre = m.map toOut
+      ∧ (∀ p ∈ pre, p = .pending ∨ ∃ r ∈ m, p = .ready (some (toOut r)))
+      ∧ (∀ p ∈ post, p = .ready none) := by
+  cases services with
+  | nil =>
+    have hm : m = [] := Interleaving.of_nil h.merge
+    subst hm
+    have hne : is ≠ [] := by simpa using h.feed
+    cases is with
+    | nil => exact absurd rfl hne
+    | cons i is =>
+      refine ⟨[], is.map fun _ => Poll.ready none, ?_, rfl, by simp, by simp⟩
+      simpa [closing] using polls_no_service i is
+  | cons s ss =>
+    have hf : Feed m is := by simpa using h.feed
+    obtain ⟨pre, post, h1, h2, h3, h4, _⟩ := run_feed m is hf St.new rfl rfl
+    refine ⟨pre, post, ?_, h2, h3, h4⟩
+    show (runPolls St.new is).2 = _
+    rw [h1]
+    simp only [lastPoll, closing, St.new]
+    cases hany : m.any Res.isItem <;> simp
+
+theorem outs_closing (services : List Service) (m : List Res) :
+    outs [closing services m] = terminal services m := by
+  unfold closing terminal
+  split
+  · rfl
+  · split <;> rfl
+
 /-- **yields_all** — the consumer sees every element of the merge order, in that order, followed by
 the terminal item and nothing else; and the merge order contains every item and every error each
 service produced, exactly as often as produced, each service's elements in its own order. -/
